@@ -152,7 +152,8 @@ def gen_case(rng, tier):
             prod *= net.sizes[ix]
             ops.append(["remove", ix, None])
         live.append(ix)
-    return {"net": net.json(), "tree": tree, "ops": ops, "seed": rng.randrange(1 << 30)}
+    return {"net": net.json(), "tree": tree, "ops": ops, "seed": rng.randrange(1 << 30),
+            "bystander": rng.random() < 0.4}
 
 
 # --------------------------------------------------------------------------------------------
@@ -192,7 +193,39 @@ def build(case):
     net = gen.Net.from_json(case["net"])
     tree = gen.real_tree(ctg, net, case["tree"])
     errors = apply_ops(tree, case["ops"])
+    if case.get("bystander"):
+        bystander(tree, case["seed"])
     return net, tree, errors
+
+
+def bystander(tree, seed):
+    """Somebody else works on a *copy* of the sliced tree (a non-inplace transformation returns a new tree and
+    leaves the receiver alone): the receiver must keep describing the same partition. The results are thrown
+    away; everything below is observed on the receiver."""
+    import random
+    rr = random.Random(seed)
+    live = list(tree.sliced_inds)
+    free = [ix for ix in tree.size_dict if ix not in tree.sliced_inds]
+    for _ in range(rr.choice([1, 1, 2, 3])):
+        k = rr.randrange(6)
+        try:
+            if k == 0 and live:
+                tree.restore_ind(rr.choice(live))
+            elif k == 1:
+                tree.unslice_all()
+            elif k == 2 and free:
+                tree.remove_ind(rr.choice(free))
+            elif k == 3 and live:
+                c = tree.copy()
+                c.restore_ind_(rr.choice(live))
+            elif k == 4 and live:
+                tree.unslice_rand(seed=rr.randrange(1 << 20))
+            elif free:
+                c = tree.copy()
+                ix = rr.choice(free)
+                c.remove_ind_(ix, project=rr.randrange(tree.size_dict[ix]))
+        except (ValueError, KeyError):
+            pass
 
 
 def spec_state(net, ops):
@@ -550,6 +583,8 @@ def check_case(ctx, drv, case):
                             if ns <= 64 else ">64"))
     ctx.count("nchunks:" + ("1" if obs["nchunks"] == 1 else ">1"))
     ctx.count("slice_numbers_checked", ns)
+    if case.get("bystander"):
+        ctx.count("bystander-on-a-copy" + ("(sliced receiver)" if live else "(unsliced receiver)"))
     for e in obs["errors"]:
         ctx.count("op-result:" + (e or "ok"))
     for op in case["ops"]:
